@@ -795,6 +795,11 @@ func (state *RuntimeState) getUsernameIfKeymasterSigned(VerifiedChains [][]*x509
 		if len(chain) < 2 {
 			continue
 		}
+		// IP restricted (role requesting) certs are signed with the same key
+		// but are never user certs: they are only valid from their netblocks
+		if certgen.IsIPRestrictedX509Cert(chain[0]) {
+			continue
+		}
 		username := chain[0].Subject.CommonName
 		//keymaster certs as signed directly
 		certSignerPKFingerprint, err := getKeyFingerprint(chain[1].PublicKey)
@@ -836,6 +841,15 @@ func (state *RuntimeState) getUsernameIfIPRestricted(VerifiedChains [][]*x509.Ce
 	if !validIP {
 		logger.Printf("Invalid IP for cert: %s is not valid for incoming connection", r.RemoteAddr)
 		return "", time.Time{}, fmt.Errorf("Bad incoming ip addres"), nil
+	}
+	userPubKeyFP, err := getKeyFingerprint(userCert.PublicKey)
+	if err != nil {
+		return "", time.Time{}, nil, err
+	}
+	for _, revokedKeyFP := range state.Config.DenyTrustData.KeyDenyFPsshSha256 {
+		if userPubKeyFP == revokedKeyFP {
+			return "", time.Time{}, fmt.Errorf("revoked key with FP:%s", revokedKeyFP), nil
+		}
 	}
 	// Check if there are group restrictions on
 	ok, err := state.isAutomationUser(clientName)
@@ -888,7 +902,8 @@ func (state *RuntimeState) checkAuth(w http.ResponseWriter, r *http.Request, req
 			var authData authInfo
 			tlsAuthUser, notBefore, err :=
 				state.getUsernameIfKeymasterSigned(r.TLS.VerifiedChains)
-			if err == nil && tlsAuthUser != "" {
+			if err == nil && tlsAuthUser != "" &&
+				(requiredAuthType&AuthTypeKeymasterX509) != 0 {
 				state.logger.Debugf(4, "Auth, Is keymastercert")
 				authData.AuthType = authData.AuthType | AuthTypeKeymasterX509
 				authData.IssuedAt = notBefore
